@@ -12,7 +12,7 @@ def run(res, replay=None):
                 '2^e, e in [-9, 29]), Kingman / Beta (scaled, time scale N^(alpha-1)) / Dirac (scaled, N^2), 1-2 demes, '
                 '1-2 epochs, n<=4, raw moments of order 1-3 of height and branch length, variance, median, cdf; the '
                 'relation is checked at 1e-9 whenever neither run logged a numerical or horizon warning; '
-                'regularize=False against the default in the moderate regime; non-trivial = pair that was not skipped')
+                'regularize=False against the default in the moderate regime; one-population models whose oldest epoch is 2^20 times smaller than the present one (epoch contrast); non-trivial = pair that was not skipped')
     res.assumptions = ['float accuracy of the SciPy backend is observed on the generated inputs, not proved']
     npair = 10 if res.tier == 'quick' else 80
     cases = []
@@ -41,6 +41,14 @@ def run(res, replay=None):
             ks = list(s['migration_rates'])
             s['migration_rates'] = {ks[0]: {'0.0': 0.0625, t1: 0.5}, ks[1]: {'0.0': 0.125, t1: 0.25}}
             cases.append({'spec': s, 'c': 2.0 ** rng.choice([27, 29]), 'regularize_check': False})
+        # strong contrast BETWEEN epochs of one model: large today, 2^20 times smaller in the oldest epoch (all sizes within the
+        # claimed range [1e-3, 1e9]): whatever is derived from one epoch's generator (the regularisation factor) must not be
+        # carried over to another epoch; second and third moments are the sensitive statistics
+        for i in range(2 if res.tier == 'quick' else 8):
+            n0 = 2.0 ** rng.choice([8, 10, 12])
+            s = {'n_items': [['a', rng.choice([4, 5])]], 'model': {'kind': 'kingman'},
+                 'pop_sizes': {'a': {'0.0': n0, repr(rng.choice([2.0, 4.0, 5.0]) * n0): n0 / 2.0 ** 20}}}
+            cases.append({'spec': s, 'c': 2.0 ** rng.choice([-3, 10, 20]), 'regularize_check': True})
     results = orc.run_oracle(res, 'scaling', cases)
     res.extra['input_distribution'] = {
         'c': sorted({c['c'] for c in cases}),
